@@ -193,8 +193,8 @@ typedef struct program_s
 {
     char *name;	                /* Name of file that defined prog */
     int flags;
-    unsigned short ref;	        /* Reference count */
-    unsigned short func_ref;
+    uint32_t ref;	        /* Reference count (one per object of this program and per inheritor) */
+    uint32_t func_ref;
     char *program;              /* The binary instructions (A_PROGRAM area) */
     int id_number;              /* used to associate information with this
                                  * prog block without needing to increase the
